@@ -39,6 +39,16 @@ def gen_areas(rng, max_areas=8, multi_zone=True):
             data = (b"\x00" * (ln // 2) + data)[:ln]   # zeros then data
         areas.append((start, data))
         cursor = start + ln
+    if areas and rng.random() < 0.2:
+        # one image in five has a hash that begins or ends with a zero byte (or two): the
+        # hash is 32 bytes whatever they are.  One byte pair of the last area is ground.
+        start, data = areas[-1]
+        for _ in range(70000):
+            tail = rng.randbytes(min(3, len(data)))
+            cand = areas[:-1] + [(start, data[:len(data) - len(tail)] + tail)]
+            dg = expected_hash(cand)
+            if dg[0] == 0 or dg[-1] == 0:
+                return cand
     return areas
 
 
